@@ -61,8 +61,8 @@ func brokerGroups(iv timeutil.Interval, ts []int64) ([]wgroup, error) {
 func checkWriteGroups(k int, iv int64, fs, fe int64) string {
 	batches := [][]int64{
 		{fe + 1, fs, fs + (fe-fs)/2, fs - 1, fe, fs + 1}, // unsorted, three families
-		{fs, fe, fs + (fe-fs)/2},                            // one family (fast path)
-		{fs, fe + 1},                                        // first row decides the fast path, second is outside
+		{fs, fe, fs + (fe-fs)/2},                         // one family (fast path)
+		{fs, fe + 1},                                     // first row decides the fast path, second is outside
 		{fe, fs - 1},
 	}
 	for _, ts := range batches {
